@@ -19,4 +19,18 @@ PROPS = {
             "a voucher naming the same merge lane twice subtracts that lane once per list entry (code and model agree; exhibited as an example, recorded in notes)",
         ],
     },
+    "C19": {
+        "lean_targets": ["BA.Props.C19"],
+        "harness": "c19",
+        "translators": [],
+        "trusted_base": COMMON_TB + [
+            "the journaled-state spec layer (BA/Model/Evm/Storage.lean, `specOps`) is my transcription of Ethereum's call/revert/transient/selfdestruct semantics with the FEVM choices the code makes (SELFDESTRUCT pays out immediately and returns empty data; a destroyed contract is an empty account that still accepts value)",
+            "a state root is modelled by the state value (content addressing: equal CID iff equal state); the KAMT is an ideal map",
+            "the script-interpreter contract (raw EVM bytecode assembled by the harness) and the decoding of its return data are part of the test rig",
+        ],
+        "assumptions": [
+            "every top-level message has an (origin, nonce) that no earlier message used (chain rule: the sender's nonce increases); stated as `VM.Fresh` + `Nodup` hypotheses of impl_refines_spec",
+            "CREATE/CREATE2 inside the call tree and Resurrect are not modelled (no theorem, no generated scripts); precompiles, gas and the call-depth limit are out of scope (scripts nest at most 4 deep)",
+        ],
+    },
 }
